@@ -64,11 +64,14 @@ REG.update({
     },
     "C07": {
         "level": "exploration",
-        "tests": [{"pkg": "./chainsim", "run": "TestC07", "quick": 480, "thorough": 40000, "chunk": 30}],
-        "rule": S5_RULE + "Oracle: every block the node's worker assembled and the harness sealed on the head it was built on is appended by the same node and becomes its head (state executed).",
-        "expect_probes": ["reorg"],
+        "tests": [{"pkg": "./chainsim", "run": "TestC07", "quick": 400, "thorough": 30000, "chunk": 25},
+                  {"pkg": "./chainsim", "run": "TestC07Byz", "quick": 400, "thorough": 30000, "chunk": 25}],
+        "rule": S5_RULE + ("Oracle 1 (TestC07): every block the node's worker assembled and the harness sealed on the head it was built on is appended by the same node and becomes its head (state executed). "
+                 "Oracle 2 (TestC07Byz): byzantine op - the honest candidate with ONE component changed (gas used, EVM/UTXO/ETX-set root, receipt hash, outbound-ETX hash, tx hash, state used, state size, average/total fees, uncle hash; "
+                 "a transaction dropped, swapped, duplicated or added; an outbound ETX dropped or altered) and re-sealed is never appended-and-executed-as-head, and leaves the chain-state key space (ut, cl, address index, canonical mapping, head pointers) byte-identical."),
+        "expect_probes": ["reorg", "byz.evm-root", "byz.utxo-root", "byz.drop-last-tx", "byz.swap-txs", "byz.add-foreign-transfer", "byz.drop-outbound-etx", "byz.total-fees+1"],
         "components": S5_COMPONENTS,
-        "assumptions": ["the external miner is honest about its coinbase choice (no Qi coinbase before the controller kick-in)"],
+        "assumptions": ["the external miner is honest about its coinbase choice (no Qi coinbase before the controller kick-in)", "byzantine candidates are zone-order blocks only"],
     },
     "C10": {
         "level": "exploration",
@@ -88,5 +91,26 @@ REG.update({
         "expect_probes": ["crash_between-writes", "crash_right-after-zone-batch", "crash_right-after-utxo-mutating-block-batch", "history_has_utxo_mutating_batch"],
         "components": S5_COMPONENTS,
         "assumptions": ["batches are atomic (engine contract); a crash loses a suffix of the write log, never reorders it", "crash points are sampled per history, not enumerated exhaustively"],
+    },
+    "C09": {
+        "level": "exploration",
+        "tests": [{"pkg": "./chainsim", "run": "TestC09", "quick": 400, "thorough": 30000, "chunk": 25}],
+        "rule": S5_RULE + ("Byzantine op: the node's honest zone-order candidate block is copied through the wire codec, ONE parent-derived header field is changed (number, difficulty +-1, gas/state limit, base fee, prime terminus hash/number, "
+                 "expansion number, parent entropy / delta / uncled delta, uncled entropy, time before parent, time far in the future, parent hash = grandparent), the block is RE-SEALED with real blake3 work and handed to the node; oracle: never appended-and-executed-as-head, and chain state unchanged. "
+                 "Plus on every honestly accepted edge: accumulated entropy strictly increases, recorded parent entropy equals the parent's accumulated entropy, order recomputed later equals the order at mining time."),
+        "expect_probes": ["byz.difficulty+1", "byz.number+1", "byz.time-far-future", "byz.parent-entropy+1", "byz.prime-terminus-hash", "byz.base-fee+1", "reorg"],
+        "components": S5_COMPONENTS,
+        "assumptions": ["share-difficulty (SHA/Scrypt/KawPow) fields are not exercised: the KawPow fork regime is off in this harness", "efficiency score / threshold count / eligible-slices rewrites are observed, not judged: no property names them as derived for zone blocks",
+                        "per-node clock skew for the future-block rule is not yet injected (the bubble clock is frozen)"],
+    },
+    "C08": {
+        "level": "exploration",
+        "tests": [{"pkg": "./chainsim", "run": "TestC08", "quick": 400, "thorough": 30000, "chunk": 25}],
+        "rule": S5_RULE + ("Byzantine op: the honest sealed candidate is changed WITHOUT re-sealing (nonce+1, mix hash, gas used, coinbase, time, a dropped transaction, halved difficulty) - a reused seal on different content - and handed to the node; "
+                 "cases whose new hash meets the target by luck (p=1/difficulty) are discarded. Oracle: never accepted. Plus for every accepted block the harness recomputes blake3(mix||seal||nonce) itself and compares with the declared difficulty's target."),
+        "expect_probes": ["byz.nonce+1-no-reseal", "byz.seal-reuse-coinbase", "byz.seal-reuse-tx-dropped", "byz.seal-reuse-difficulty-lowered"],
+        "components": S5_COMPONENTS,
+        "assumptions": ["only the blake3 engine is exercised: progpow/kawpow DAG hashing and the AuxPoW (SHA/Scrypt donor coinbase, merkle branch, template signature) clauses are NOT decided by this check",
+                        "difficulty boundary values 0, 1, 2^256 are not generated"],
     },
 })
